@@ -109,6 +109,13 @@ func genC14(h *H) {
 			h.do("b-with-A", "ecdh", hx(be32(b)), hx(ua[1:33]), hx(ua[33:65]), strconv.Itoa(enc))
 		}
 	}
+	// peer keys built from a chosen x^3 / a small y (see specialPoints), in every encoding
+	for _, pt := range h.specialPoints(3 * h.budget) {
+		a := h.randKeyInt()
+		for enc := 0; enc < 4; enc++ {
+			h.do("special-peer", "ecdh", hx(be32(a)), hx(be32(pt[0])), hx(be32(pt[1])), strconv.Itoa(enc))
+		}
+	}
 }
 
 func genC15(h *H) {
@@ -147,5 +154,16 @@ func genC15(h *H) {
 	}
 	for l := 0; l <= 70; l += 3 {
 		h.do("scalar-len", "ad_sbmul", hx(h.randBytes(l)))
+	}
+	// points built from a chosen x^3 / a small y (see specialPoints) and their near misses
+	for _, pt := range h.specialPoints(4 * h.budget) {
+		X, Y := hx(be32(pt[0])), hx(be32(pt[1]))
+		h.do("special-point", "ad_isoncurve", X, Y)
+		h.do("special-point", "ad_isoncurve", X, hx(be32(new(big.Int).Sub(curveP, pt[1]))))
+		h.do("special-point-off", "ad_isoncurve", X, hx(be32(new(big.Int).Add(pt[1], big.NewInt(1)))))
+		h.do("special-point-off", "ad_isoncurve", hx(be32(new(big.Int).Add(pt[0], big.NewInt(1)))), Y)
+		h.do("special-point", "ad_double", X, Y)
+		h.do("special-point", "ad_add", X, Y, X, Y)
+		h.do("special-point", "ad_smul", X, Y, hx(h.randBytes(32)))
 	}
 }
